@@ -227,6 +227,49 @@ class Ctx:
             return False
         raise PathInfeasible()
 
+    def merged(self, thunk, max_paths=512):
+        """run a PURE computation on every one of its paths (a local depth-first search over its own decisions) and return
+        [(path condition, ("value", v) | ("raise", exc))].  Facts assumed inside are kept as implications of the sub-path
+        condition.  The caller combines the outcomes into one if-then-else value instead of forking the enclosing path."""
+        out, kept = [], []
+        stack = [[]]
+        outer = (self.decisions, self.prefix, self.forks)
+        npc, nf = len(self.pc), len(self.facts)
+        try:
+            while stack:
+                pre = stack.pop()
+                self.decisions, self.prefix, self.forks = [], pre, set()
+                res = None
+                try:
+                    res = ("value", thunk())
+                except PathInfeasible:
+                    res = None
+                except PyRaise as e:
+                    res = ("raise", e)
+                conds = list(self.pc[npc:])
+                newfacts = list(self.facts[nf:])
+                del self.pc[npc:]
+                del self.facts[nf:]
+                self._fcache = {}
+                self._qs = None
+                pcnd = z3.And(*conds) if len(conds) > 1 else (conds[0] if conds else z3.BoolVal(True))
+                kept.extend(z3.Implies(pcnd, f) for f in newfacts)
+                if res is not None:
+                    out.append((pcnd, res))
+                for k in range(len(pre), len(self.decisions)):
+                    if k in self.forks:
+                        stack.append(self.decisions[:k] + [False])
+                if len(out) > max_paths:
+                    raise Unsupported("too many paths in a merged computation")
+        finally:
+            self.decisions, self.prefix, self.forks = outer
+            del self.pc[npc:]
+            self._fcache = {}
+            self._qs = None
+        for f in kept:
+            self.facts.append(f)
+        return out
+
     def instantiate_pending(self):
         """registered universal facts are instantiated at the witness indices before a new branch is judged feasible"""
         try:
